@@ -10,6 +10,8 @@
 3. code -> spec: assignments recorded while the repository's own tests run are
    validated by TraceParams.tla.
 """
+PROPERTIES = ("C14",)
+
 import itertools
 import os
 import random
